@@ -135,7 +135,17 @@ type g04Opts struct {
 	eqPad  int
 }
 
-var g04Junk = []string{"", " ", "\x01", "\x7f\x80", "\t\n\r ", "\x00 ", "&#32;", "&#x20;&#9;", "\xff\xfe ", "&#0;&#x1;"}
+var g04Junk = func() []string {
+	j := []string{"", " ", "\x01", "\x7f\x80", "\t\n\r ", "\x00 ", "&#32;", "&#x20;&#9;", "\xff\xfe ", "&#0;&#x1;", "&#00000032;", "&#x0000A;", "\xa0", "\xc2\xa0", "\xe3\x80\x80", "\x80\x80\x80", "&#10&#13"}
+	// every single control byte, DEL and a spread of high bytes
+	for b := 1; b <= 32; b++ {
+		j = append(j, string([]byte{byte(b)}))
+	}
+	for _, b := range []byte{0x7f, 0x80, 0x81, 0x9f, 0xa1, 0xbf, 0xc0, 0xe0, 0xf8, 0xff} {
+		j = append(j, string([]byte{b}), string([]byte{b, ' '}))
+	}
+	return j
+}()
 var g04EqPad = [][2]string{{"", ""}, {" ", ""}, {"", " "}, {" ", " "}, {"\n", "\t"}}
 
 func applyMask(s string, mask uint64) string {
